@@ -345,7 +345,18 @@ def history_correspondence(ctx, rng, count):
         fac, L = mk(kind, n)
         cache = rng.random() < (0.7 if i % 3 else 0.3)
         rule = fac(cache)
-        if i % 3 == 0:
+        if i % 5 == 4:
+            # a PARTLY filled cache (the fill batch is 10), then every kind of query that must see the whole sequence: negative
+            # indices and slices (list path), count(), a far `in`, the last element
+            n = rng.choice([12, 15, 21, 25, 31])
+            fac, L = mk(kind, n)
+            cache = rng.random() < 0.85
+            rule = fac(cache)
+            part = rng.choice([("take", rng.choice([1, 9, 10, 11, 19, 20])), ("idx", rng.choice([0, 5, 10])), ("aft", L[rng.choice([0, 8, 10])], False)])
+            kinds = [("idx", -1), ("idx", -n), ("idx", -n - 1), ("idx", -2), ("sl", -3, None, None), ("sl", None, None, -1), ("sl", -5, -1, 2), ("sl", None, -2, None),
+                     ("sl", -n - 3, 2, None), ("cnt",), ("in", L[-1]), ("bef", L[-1] + 1, False), ("btw", L[2], L[-1], True), ("xaf", L[1], None, False), ("take", n + 1)]
+            qs = [part] + rng.sample(kinds, rng.randint(2, 5))
+        elif i % 3 == 0:
             qs = partial_then_len(rng, L) + [rrlib.random_query(rng, L) for _ in range(rng.randint(0, 2))]
         else:
             qs = [rrlib.random_query(rng, L) for _ in range(rng.randint(1, 7))]
@@ -465,12 +476,64 @@ def oracle(ctx):
         judge_threads(ctx, {"rule": kind, "n": n, "L": L, "qs": [list(q) for q in qs], "segs": [list(s) for s in segs], "res": res, "st": st})
     free_running_smoke(ctx)
     generator_raises(ctx)
+    twin_histories(ctx)
     for r in runs:
         if r["kind"] == "threads" and len(r["qs"]) >= 3:
             ctx.sample({"rule": r["rule"], "n": r["n"], "queries": [q_wire(tuple(q)) for q in r["qs"]],
                         "schedule": sched.seg_wire([tuple(s) for s in r["segs"]]), "answers": r["res"], "statuses": r["st"]}, cap=4)
     ctx.sample({"kind": "nexts", "n": 13, "ops": "n1,n0 x14,n1 x14 (the schedule that dead-locked before fix a459cd4)",
                 "out": run_nexts_case("daily", 13, 2, ["n1"] + ["n0"] * 14 + ["n1"] * 14)[1]})
+
+
+def twin_histories(ctx):
+    """cached = uncached along BUILD-and-query histories of a set: the same history of member additions, queries and live iterators
+    (never advanced after a later addition: C10's domain otherwise) on a cached set and on an uncached twin — in particular sets
+    that are fully observed while EMPTY (no member yet, or everything excluded) and then given members, partial fills followed
+    by negative indices / slices, repeated dates, members cut short by year 9999, one uncached rule object in two roles.
+    The generators are C10's (props.c10.gen_history / shaped_history); the model side is C10.history_inv (cache on/off give the
+    same specification)."""
+    import props.c10 as c10
+    rng = ctx.subrng("twins")
+    for i in range(ctx.budget(400, 4000)):
+        mode = "plain" if i % 2 else "live"
+        ops = c10.shaped_history(rng, mode) if i % 3 else c10.gen_history(rng, mode)
+        obs_c, _, _ = c10.run_impl(True, ops)
+        obs_u, _, _ = c10.run_impl(False, ops)
+        ctx.case(("twin", c10.describe(ops)), nontrivial=c10.nontrivial_history(ops, obs_u))
+        ctx.count("twin_histories")
+        for j, (a, b) in enumerate(zip(obs_c, obs_u)):
+            if a != b:
+                table, uses = c10.member_table(ops)
+                ctx.violation("observation %d (%s) of history %s: the cached set gives %s, the uncached twin %s"
+                              % (j, c10.op_wire(ops[j]), c10.describe(ops)[:300], a[:200], b[:200]),
+                              {"kind": "twin", "history": c10.describe(ops), "failing_op": j, "members": table, "member_uses": uses}, None)
+                break
+
+
+class InfraError(Exception):
+    """a wall-clock guard fired: infrastructure (exit 2), never a violation (vlib.is_infra)"""
+    infrastructure = True
+
+
+class hang_guard(object):
+    """an operation on a (possibly modified) implementation that does not return would stall the whole check: after `secs`
+    seconds of wall clock the check stops with an infrastructure error"""
+    def __init__(self, secs, what):
+        self.secs, self.what = secs, what
+
+    def __enter__(self):
+        import signal
+
+        def fire(sig, frm):
+            raise InfraError("no return within %d s: %s" % (self.secs, self.what))
+        self.old = signal.signal(signal.SIGALRM, fire)
+        signal.setitimer(signal.ITIMER_REAL, self.secs)
+
+    def __exit__(self, *a):
+        import signal
+        signal.setitimer(signal.ITIMER_REAL, 0)
+        signal.signal(signal.SIGALRM, self.old)
+        return False
 
 
 class Flaky(object):
@@ -509,7 +572,8 @@ def generator_raises(ctx):
         for cache in (False, True):
             s = R.rruleset(cache=cache)
             s.rrule(Flaky(L, k))
-            per[cache] = [rrlib.impl_query(s, q).replace(" ", "_") for q in qs]
+            with hang_guard(30, "queries %s on a %s set whose generator raises after %d values" % (";".join(q_wire(q) for q in qs), "cached" if cache else "uncached", k)):
+                per[cache] = [rrlib.impl_query(s, q).replace(" ", "_") for q in qs]
             reqs.append("query.runx %s %d %d %s" % (ilist(L), k, int(cache), ";".join(q_wire(q) for q in qs)))
         outs.append(per)
     try:
@@ -552,7 +616,8 @@ def generator_raises(ctx):
             segs = [(rng.randrange(T), rng.choice([1, 2, 3, 4, 6, 9, 14, 22, 35, 60])) for _ in range(rng.randint(1, 12))]
             tcases.append((L, k, qs, segs))
     for L, k, qs, segs in tcases:
-        res, st = genraise_threads(L, k, qs, segs)
+        with hang_guard(60, "threads %s under schedule %s over a cached set whose generator raises after %d values" % ([q_wire(q) for q in qs], sched.seg_wire(segs), k)):
+            res, st = genraise_threads(L, k, qs, segs)
         u = R.rruleset(cache=False)
         u.rrule(Flaky(L, k))
         want = [rrlib.impl_query(u, q) for q in qs]
@@ -655,6 +720,16 @@ def replay(ctx, payload):
         print("replay nested: %d cached objects, %d distinct lock objects; schedule %s -> statuses %s answers %s"
               % (len(objs), nl, sched.seg_wire(segs), st, res))
         return all(x == "done" for x in st) and all(g == py_query(exp[o], q) for (o, q), g in zip(jobs, res))
+    if c.get("kind") == "twin":
+        import props.c10 as c10
+        ops = c10.parse_history(c["history"], c.get("members"), c.get("member_uses"))
+        obs_c, _, _ = c10.run_impl(True, ops)
+        ops = c10.parse_history(c["history"], c.get("members"), c.get("member_uses"))
+        obs_u, _, _ = c10.run_impl(False, ops)
+        for op, a, b in zip(ops, obs_c, obs_u):
+            if op[0] in ("q", "open", "resume"):
+                print("replay %s: cached=%s uncached=%s" % (c10.op_wire(op), a[:120], b[:120]))
+        return obs_c == obs_u
     if c.get("kind") in ("genraise", "genraise-model"):
         from dateutil import rrule as R
         L = [7 * i + 3 for i in range(c["k"] + 3)]
